@@ -779,10 +779,20 @@ def check_slash_plumbing(rep, rule):
         e.args[0].value == 'inherit_slashes'
     flag_names = set()
     for s_ in stmts_of(bi.node):
-        if isinstance(s_, ast.Assign) and len(s_.targets) == 1 and isinstance(s_.targets[0], ast.Name) and is_pop(s_.value):
-            ds_, clean_ = defs_.of(s_.targets[0].id)
-            if clean_ and len(ds_) == 1:
-                flag_names.add(s_.targets[0].id)
+        if not (isinstance(s_, ast.Assign) and len(s_.targets) == 1):
+            continue
+        pairs_ = []
+        t_, v_ = s_.targets[0], s_.value
+        if isinstance(t_, ast.Name):
+            pairs_.append((t_, v_))
+        elif isinstance(t_, (ast.Tuple, ast.List)) and isinstance(v_, (ast.Tuple, ast.List)) and len(t_.elts) == len(v_.elts) and \
+                not any(isinstance(x_, ast.Starred) for x_ in list(t_.elts) + list(v_.elts)):
+            pairs_ += [(a_, b_) for a_, b_ in zip(t_.elts, v_.elts) if isinstance(a_, ast.Name)]      # ``a, b = pop(..), pop(..)``
+        for a_, b_ in pairs_:
+            if is_pop(b_):
+                stores_ = [n_ for n_ in ast.walk(bi.node) if isinstance(n_, ast.Name) and n_.id == a_.id and isinstance(n_.ctx, (ast.Store, ast.Del))]
+                if len(stores_) == 1:
+                    flag_names.add(a_.id)
     grew_ = True
     while grew_:          # plain copies of the flag (``inherit = opts_inherit_slashes``)
         grew_ = False
